@@ -350,14 +350,21 @@ UUIDCases == {Case("M", "UUID", "", u, "str", "exact") : u \in UUIDClasses}
 \* compositions through encoding/json: any JSON value; round trip = equal as JSON values
 MapClasses == {"nil", "empty", "flat", "nested", "string-classes", "invalid-utf8", "html", "numbers"}
 MapCases == {Case("M", "Map", "", m, IF m = "nil" THEN "null" ELSE "object", "json") : m \in MapClasses}
+NoJsonClasses == {"nan", "+inf", "-inf", "bad-number", "nested-nan", "nested-bad-number"}
 AnyClasses == {"nil", "bool", "int", "float", "string", "string-classes", "invalid-utf8", "html", "list", "map", "nested"}
 AnyCases == {Case("M", "Any", "", a, "value", "json") : a \in AnyClasses}
+            \cup {Case("M", "Any", "", a, "refuse", "") : a \in NoJsonClasses}
+\* Go values that have no JSON representation (non-finite floats, a json.Number that is
+\* not a JSON number, at top level or nested): the writer must not complete with a
+\* document that is not valid JSON (refusing = panicking with the encoder's error, which
+\* the executor turns into an error, is what it does)
+MapRefuseCases == {Case("M", "Map", "", a, "refuse", "") : a \in {"nested-nan", "nested-bad-number"}}
 OmitClasses == {"string", "string-classes", "int", "float", "bool", "nil-pointer", "pointer", "struct", "slice", "map", "zero"}
 OmittableCases == {Case("M", "Omittable", "set", o, "value", "exact") : o \in OmitClasses}
                   \cup {Case("M", "Omittable", "unset", o, "value", "none") : o \in OmitClasses}
 
 ScalarCases == IntMarshalCases \cup IntUnmarshalCases \cup FloatMarshalCases \cup FloatUnmarshalCases
-               \cup BoolCases \cup TimeCases \cup DurationCases \cup UUIDCases \cup MapCases \cup AnyCases
+               \cup BoolCases \cup TimeCases \cup DurationCases \cup UUIDCases \cup MapCases \cup MapRefuseCases \cup AnyCases
                \cup OmittableCases
 
 (***************************************************************************)
